@@ -404,6 +404,86 @@ func (e *Engine) structural(spec string) (bool, string) {
 			return false, fmt.Sprintf("%d close operations in the function, expected exactly the deferred one", closes)
 		}
 		return true, "begins with defer close(ch); no other close"
+	case "defer-pair":
+		// defer-pair|<pkg name>|<enter function key>|<leave function key>: the two functions are used only as a pair -
+		// a function that calls enter does so once, in its entry block, on its own receiver, right after registering
+		// `defer leave()` on the same receiver, and leave is called nowhere else. Hence every frame that entered
+		// leaves exactly once, on every exit (error returns and panics included).
+		if len(parts) != 4 {
+			return false, "bad spec"
+		}
+		enter, leave := strings.TrimSpace(parts[2]), strings.TrimSpace(parts[3])
+		if e.funcs[enter] == nil || e.funcs[leave] == nil {
+			return false, "enter/leave function not found"
+		}
+		var bad []string
+		pairs := 0
+		for key, fn := range e.funcs {
+			pk := fnPackage(fn)
+			if pk == nil || pkgKey(pk) != parts[1] || fn.Blocks == nil {
+				continue
+			}
+			enters, defLeaves := 0, 0
+			okOrder := false
+			var leaveRecv ssa.Value
+			for _, b := range fn.Blocks {
+				for _, ins := range b.Instrs {
+					switch x := ins.(type) {
+					case *ssa.Defer:
+						if f := x.Call.StaticCallee(); f != nil && normName(f.String()) == leave {
+							defLeaves++
+							if b.Index == 0 && enters == 0 && len(x.Call.Args) > 0 {
+								leaveRecv = x.Call.Args[0]
+							} else {
+								bad = append(bad, key+": deferred "+leave+" not in the entry block before "+enter)
+							}
+						}
+					case ssa.CallInstruction:
+						f := x.Common().StaticCallee()
+						if f == nil {
+							continue
+						}
+						switch normName(f.String()) {
+						case enter:
+							enters++
+							if b.Index == 0 && leaveRecv != nil && len(x.Common().Args) > 0 && x.Common().Args[0] == leaveRecv {
+								okOrder = true
+							}
+						case leave:
+							bad = append(bad, key+": calls "+leave+" other than by the entry defer")
+						}
+					}
+					// the functions taken as values would escape the pairing
+					for _, op := range ins.Operands(nil) {
+						if f, ok := (*op).(*ssa.Function); ok {
+							n := normName(f.String())
+							if ci, isCall := ins.(ssa.CallInstruction); isCall && ci.Common().Value == f {
+								continue
+							}
+							if n == enter || n == leave {
+								bad = append(bad, key+": takes "+n+" as a value")
+							}
+						}
+					}
+				}
+			}
+			if enters == 0 && defLeaves == 0 {
+				continue
+			}
+			if enters != 1 || defLeaves != 1 || !okOrder {
+				bad = append(bad, fmt.Sprintf("%s: %d calls of %s, %d deferred %s (want: defer leave, then one enter, both in the entry block on the same receiver)", key, enters, enter, defLeaves, leave))
+				continue
+			}
+			pairs++
+		}
+		if len(bad) > 0 {
+			sort.Strings(bad)
+			return false, strings.Join(dedupe(bad), "; ")
+		}
+		if pairs == 0 {
+			return false, "no use of the pair found (vacuous)"
+		}
+		return true, fmt.Sprintf("%d functions use the pair, each once at entry", pairs)
 	case "global-writes-confined":
 		// global-writes-confined|<pkg name>|<global>|<allowed function keys,...>: the package-level variable is assigned, and
 		// the map or slice it holds is updated, only in the allowed functions (and in the package initialiser)
@@ -608,4 +688,241 @@ func (e *Engine) sharedWrites(spec string) (offenders []string, scanned int, err
 	}
 	sort.Strings(offenders)
 	return offenders, scanned, ""
+}
+
+// recursionGuarded: recursion-guarded|<pkg name>|<guard function keys>
+// Every cycle of the package's call graph must pass through one of the guard functions (whose
+// contracts bound the number of their active frames): with the guards removed the graph must be
+// acyclic. Edges: static calls, closures created (MakeClosure) and, conservatively, dynamic calls to
+// every address-taken function of the package with the same signature and interface invocations to
+// every method of the package with that name. One obligation per unguarded strongly connected
+// component, named by its (sorted) members, so that a recorded finding suppresses exactly that cycle.
+func (e *Engine) recursionGuarded(spec string) (cycles []string, nfuncs int, err string) {
+	parts := strings.Split(spec, "|")
+	if len(parts) != 3 && len(parts) != 4 {
+		return nil, 0, "bad spec"
+	}
+	// optional 4th part: groups (separated by ';') of functions whose mutual recursion is structural - over a
+	// finite value (syntax tree, type, run-time value, scope chain) built by guarded code. A strongly
+	// connected component is accepted iff all its members belong to one group; the groups are listed as
+	// assumptions of the property. A cycle that leaves its group (say, through a new call path) is reported.
+	var groups []map[string]bool
+	if len(parts) == 4 {
+		for _, g := range strings.Split(parts[3], ";") {
+			m := map[string]bool{}
+			for _, c := range strings.Split(g, ",") {
+				if c = strings.TrimSpace(c); c != "" {
+					m[c] = true
+					if e.funcs[c] == nil {
+						return nil, 0, "exempt function " + c + " not found"
+					}
+				}
+			}
+			if len(m) > 0 {
+				groups = append(groups, m)
+			}
+		}
+	}
+	guards := map[string]bool{}
+	for _, c := range strings.Split(parts[2], ",") {
+		if c = strings.TrimSpace(c); c != "" {
+			guards[c] = true
+			if e.funcs[c] == nil {
+				return nil, 0, "guard function " + c + " not found"
+			}
+		}
+	}
+	inPkg := map[*ssa.Function]string{}
+	for key, fn := range e.funcs {
+		pk := fnPackage(fn)
+		if pk == nil || pkgKey(pk) != parts[1] || fn.Blocks == nil {
+			continue
+		}
+		inPkg[fn] = key
+	}
+	// address-taken functions and methods by name (targets of dynamic calls)
+	addrTaken := map[*ssa.Function]bool{}
+	for fn := range inPkg {
+		for _, b := range fn.Blocks {
+			for _, ins := range b.Instrs {
+				for _, op := range ins.Operands(nil) {
+					if f, ok := (*op).(*ssa.Function); ok {
+						if ci, isCall := ins.(ssa.CallInstruction); isCall && ci.Common().Value == f {
+							continue
+						}
+						addrTaken[f] = true
+					}
+				}
+				if mc, ok := ins.(*ssa.MakeClosure); ok {
+					if f, ok := mc.Fn.(*ssa.Function); ok {
+						addrTaken[f] = true
+					}
+				}
+			}
+		}
+	}
+	adj := map[string][]string{}
+	for fn, key := range inPkg {
+		if guards[key] {
+			continue
+		}
+		seen := map[string]bool{}
+		// a direct self call is bounded where the function carries a verified recursion variant (recdecreases)
+		selfBounded := false
+		if con := e.cons.Funcs[key]; con != nil && con.RecDecreases != nil {
+			selfBounded = true
+		}
+		add := func(t *ssa.Function) {
+			if t == fn && selfBounded {
+				return
+			}
+			if k, ok := inPkg[t]; ok && !guards[k] && !seen[k] {
+				seen[k] = true
+				adj[key] = append(adj[key], k)
+			}
+		}
+		for _, b := range fn.Blocks {
+			for _, ins := range b.Instrs {
+				if mc, ok := ins.(*ssa.MakeClosure); ok {
+					if f, ok := mc.Fn.(*ssa.Function); ok && !onlyGo(mc) {
+						add(f)
+					}
+				}
+				ci, ok := ins.(ssa.CallInstruction)
+				if !ok {
+					continue
+				}
+				if _, isGo := ins.(*ssa.Go); isGo {
+					// a new goroutine has a stack of its own: not a frame on this one
+					continue
+				}
+				c := ci.Common()
+				switch {
+				case c.IsInvoke():
+					for t := range inPkg {
+						if t.Signature.Recv() != nil && t.Name() == c.Method.Name() {
+							add(t)
+						}
+					}
+				case c.StaticCallee() != nil:
+					add(c.StaticCallee())
+				default:
+					if _, isB := c.Value.(*ssa.Builtin); isB {
+						continue
+					}
+					sig := c.Signature()
+					for t := range addrTaken {
+						if _, ok := inPkg[t]; ok && types.Identical(stripRecv(t.Signature), sig) {
+							add(t)
+						}
+					}
+				}
+			}
+		}
+		sort.Strings(adj[key])
+	}
+	// Tarjan SCC
+	index := map[string]int{}
+	low := map[string]int{}
+	on := map[string]bool{}
+	var stack []string
+	n := 0
+	var sccs [][]string
+	var keys []string
+	for _, k := range inPkg {
+		if !guards[k] {
+			keys = append(keys, k)
+		}
+	}
+	sort.Strings(keys)
+	var strong func(v string)
+	strong = func(v string) {
+		index[v] = n
+		low[v] = n
+		n++
+		stack = append(stack, v)
+		on[v] = true
+		for _, w := range adj[v] {
+			if _, ok := index[w]; !ok {
+				strong(w)
+				if low[w] < low[v] {
+					low[v] = low[w]
+				}
+			} else if on[w] && index[w] < low[v] {
+				low[v] = index[w]
+			}
+		}
+		if low[v] == index[v] {
+			var comp []string
+			for {
+				w := stack[len(stack)-1]
+				stack = stack[:len(stack)-1]
+				on[w] = false
+				comp = append(comp, w)
+				if w == v {
+					break
+				}
+			}
+			self := false
+			for _, w := range adj[v] {
+				if w == v {
+					self = true
+				}
+			}
+			if len(comp) > 1 || self {
+				sort.Strings(comp)
+				sccs = append(sccs, comp)
+			}
+		}
+	}
+	for _, k := range keys {
+		if _, ok := index[k]; !ok {
+			strong(k)
+		}
+	}
+	for _, c := range sccs {
+		accepted := false
+		for _, g := range groups {
+			all := true
+			for _, m := range c {
+				if !g[m] {
+					all = false
+					break
+				}
+			}
+			if all {
+				accepted = true
+				break
+			}
+		}
+		if !accepted {
+			cycles = append(cycles, strings.Join(c, ","))
+		}
+	}
+	sort.Strings(cycles)
+	return cycles, len(keys), ""
+}
+
+func stripRecv(sig *types.Signature) *types.Signature {
+	if sig.Recv() == nil {
+		return sig
+	}
+	return types.NewSignatureType(nil, nil, nil, sig.Params(), sig.Results(), sig.Variadic())
+}
+
+// onlyGo: the closure value is used by nothing but go statements.
+func onlyGo(mc *ssa.MakeClosure) bool {
+	refs := mc.Referrers()
+	if refs == nil || len(*refs) == 0 {
+		return false
+	}
+	for _, r := range *refs {
+		if _, ok := r.(*ssa.Go); !ok {
+			if _, isDbg := r.(*ssa.DebugRef); isDbg {
+				continue
+			}
+			return false
+		}
+	}
+	return true
 }
